@@ -80,12 +80,14 @@ def run(tier, seed, replay=None):
         cmds = ["%s small 2 | %s" % (hbin, runner)]
         cmds += ["%s random 12000 %d 7 | %s" % (hbin, seed * 100 + i, runner) for i in range(8)]
         cmds += ["%s stack 15000 %d | %s" % (hbin, seed * 100 + 70 + i, runner) for i in range(2)]
+        cmds += ["%s stackmatch | %s" % (hbin, runner), "%s stackmatch | %s --no-memchr" % (hbin_nm, runner)]
         cmds += ["%s small 2 | %s --no-memchr" % (hbin_nm, runner)]
         cmds += ["%s random 12000 %d 7 | %s --no-memchr" % (hbin_nm, seed * 100 + 50 + i, runner) for i in range(3)]
     else:
         cmds = ["%s small 4 | %s" % (hbin, runner), "%s small 3 | %s --no-memchr" % (hbin_nm, runner)]
         cmds += ["%s random 150000 %d 8 | %s" % (hbin, seed * 100 + i, runner) for i in range(10)]
         cmds += ["%s stack 200000 %d | %s" % (hbin, seed * 100 + 70 + i, runner) for i in range(2)]
+        cmds += ["%s stackmatch | %s" % (hbin, runner), "%s stackmatch | %s --no-memchr" % (hbin_nm, runner)]
         cmds += ["%s random 150000 %d 8 | %s --no-memchr" % (hbin_nm, seed * 100 + 50 + i, runner) for i in range(4)]
     cmds = ccmds + cmds
     outs = run_pipeline(cmds, timeout=3000)
